@@ -60,8 +60,9 @@ PROP = {'rule': 'rapid-generated cases: node capacity (1-256 cpu, 1 GiB-4 TiB), 
                       {'run': 'TestVerifC09MidMonotone', 'quick': 3000, 'thorough': 6000}]},
            {'name': 'reconcile',
             'pkg': 'pkg/slo-controller/noderesource',
-            'files': ['C09/c09_reconcile_test.go'],
-            'tests': [{'run': 'TestVerifC09ReconcileHistory', 'quick': 600, 'thorough': 3000}]}],
+            'files': ['C09/c09_reconcile_test.go', 'C09/c09_config_test.go'],
+            'tests': [{'run': 'TestVerifC09ReconcileHistory', 'quick': 600, 'thorough': 3000},
+                      {'run': 'TestVerifC09ConfigGate', 'quick': 600, 'thorough': 3000}]}],
  'manifest': {'technique': 'property-based testing (rapid): generated node/strategy/pod/metric/topology inputs with an exact-rational '
                            'bound oracle and metamorphic monotonicity relations',
               'text': 'Generated-input search over Plugin.Calculate of the batch and mid resource plugins (node path and NUMA-zone path '
